@@ -246,6 +246,12 @@ def plan_c15(pid, rng, tier):
     if pid % 3:
         p["label"] = "blue"
     p["proto"] = 1 if pid % 5 == 0 else 0          # protocol 1 = encryption version 0 (padded)
+    if pid % 2:
+        # in the fault plans the transport also refuses packets now and then with a transient local error (a full socket
+        # buffer): whatever the node does about it - give up, try again - what it hands over must be sealed
+        for e in p["events"]:
+            if e.get("kind") == "faults" and e.get("loss", 0) > 0:
+                e["senderr"] = 0.1
     return p
 
 
